@@ -250,9 +250,46 @@ class PX:
 
         def entry():
             self_obj, args = setup()
+            self._route_property_fields(self_obj)
             return self.call_function(func, self_obj, [], dict(args), None, top=True)
 
         return self._run(entry)
+
+    def _property_pair(self, cls, name):
+        """(getter, setter) FuncRefs when ``name`` is a read/write property defined in a class of the repository, else None."""
+        if not isinstance(cls, ClassRef):
+            return None
+        for c in cls.mro():
+            if not isinstance(c, ClassRef):
+                continue
+            get = setr = None
+            for st in c.node.body:
+                if isinstance(st, ast.FunctionDef) and st.name == name:
+                    decs = [_text(d) for d in st.decorator_list]
+                    if "property" in decs:
+                        get = FuncRef(self.repo, c.mod, c, st)
+                    elif f"{name}.setter" in decs:
+                        setr = FuncRef(self.repo, c.mod, c, st)
+            if get is not None and setr is not None:
+                return get, setr
+        return None
+
+    def _route_property_fields(self, obj):
+        """State a rule presets under a name that the class (now) implements as a read/write property - the attribute was replaced by
+        another representation behind the same name - is stored through the property's setter; the value under that name in the final
+        store is what the getter returns."""
+        self._prop_fields = []
+        if not isinstance(obj, Obj):
+            return
+        for k in [k for k in list(obj.fields) if isinstance(k, str)]:
+            pair = self._property_pair(obj.cls, k)
+            if pair is None:
+                continue
+            v = obj.fields.pop(k)
+            self.call_function(pair[1], obj, [v], {}, None)
+            self._prop_fields.append((obj, k, pair[0]))
+        if self._prop_fields:
+            self.events.clear()
 
     def explore_block(self, stmts, func: FuncRef, setup):
         """Explore a bare statement list with a preset store: setup() -> (self_obj, locals)."""
@@ -315,6 +352,14 @@ class PX:
             store["locals"] = dict(fr.locals)
             if isinstance(fr.self_obj, Obj):
                 store["self"] = dict(fr.self_obj.fields)
+                for obj_, k_, getter_ in getattr(self, "_prop_fields", ()):
+                    if obj_ is fr.self_obj:
+                        try:
+                            n_ev = len(self.events)
+                            store["self"][k_] = self.call_function(getter_, obj_, [], {}, None)
+                            del self.events[n_ev:]
+                        except Exception:
+                            pass
         return Path(list(self.events), terminal, value, store, list(self._taken), list(self.assumes))
 
     def choose(self, n, label=None):
@@ -896,6 +941,55 @@ class PX:
                     and self.should_inline(fval, False, fr) is not False and self.model_for(text) is None:
                 args, kwargs = self.ev_args(ce, fr)
                 return self._with_generator(fval, target, args, kwargs, item, run_body, fr, st, text)
+        # a context-manager *class* of the repository (``__enter__`` / ``__exit__``, or the async pair): constructed, entered, and left
+        # through its own exit method with the exception in flight - which it may swallow
+        if isinstance(ce, ast.Call) and self.model_for(text) is None and self.model_for("with:" + text) is None:
+            cval = self.ev(ce.func, fr)
+            names_ = ("__aenter__", "__aexit__") if is_async else ("__enter__", "__exit__")
+            if isinstance(cval, ClassRef):
+                try:
+                    m_enter, m_exit = cval.method(names_[0]), cval.method(names_[1])
+                except KeyError:
+                    m_enter = m_exit = None
+                if m_enter is not None and m_enter.cls is not None and (fr is None or fr.depth < self.max_depth):
+                    cargs, ckw = self.ev_args(ce, fr)
+                    obj = self.construct(cval, text, list(cargs), dict(ckw), fr, st)
+                    if isinstance(obj, Obj) and not obj.fields and cargs:
+                        try:
+                            self.call_function(cval.method("__init__"), obj, list(cargs), dict(ckw), fr)
+                        except KeyError:
+                            pass
+                    if is_async:
+                        self.epoch += 1
+                    val = self.call_function(m_enter, obj, [], {}, fr)
+                    if item.optional_vars is not None:
+                        self.assign(item.optional_vars, val, fr)
+
+                    def leave(ex_):
+                        if ex_ is None:
+                            return self.call_function(m_exit, obj, [None, None, None], {}, fr)
+                        ev_ = ex_.value if ex_.value is not None else Obj(TypeRef("exc." + ex_.cls_name), {"args": ex_.args_}, tag=ex_.cls_name)
+                        return self.call_function(m_exit, obj, [TypeRef("exc." + ex_.cls_name), ev_, None], {}, fr)
+
+                    try:
+                        run_body()
+                    except Exc as ex_:
+                        saved_, fr.cur_exc = fr.cur_exc, ex_
+                        try:
+                            swallowed = leave(ex_)
+                        finally:
+                            fr.cur_exc = saved_
+                        if isinstance(swallowed, Sym):
+                            raise Unsupported(f"{fr.mod}: {text}.__exit__ returns {swallowed!r}")
+                        if not swallowed:
+                            raise
+                        self.emit("suppressed", ex_.cls_name, node=st, frame=fr)
+                    except (_Return, _Break, _Continue):
+                        leave(None)
+                        raise
+                    else:
+                        leave(None)
+                    return
         # generic context manager
         args, kwargs = self.ev_args(ce, fr) if isinstance(ce, ast.Call) else ((), {})
         if text.endswith("timeout_at") and len(args) == 1 and not kwargs:
@@ -2696,6 +2790,10 @@ class PX:
             if isinstance(c, ClassRef):
                 if isinstance(v, Obj) and isinstance(v.cls, ClassRef) and c in v.cls.mro():
                     return True
+                if isinstance(v, Obj) and isinstance(v.cls, TypeRef) and v.cls.name.startswith("exc."):
+                    self.hier.learn(c)
+                    if self.hier.is_sub(v.cls_name, c.name):
+                        return True  # an exception in flight (handed to __exit__ / bound by `except ... as`) against a repository class
                 if isinstance(v, Member) and c in v.cls.mro():
                     return True
             elif isinstance(c, TypeRef):
@@ -2711,6 +2809,8 @@ class PX:
                         return True
                 if isinstance(v, Obj) and (v.cls == c or v.cls_name == nm):
                     return True
+                if isinstance(v, Obj) and isinstance(v.cls, TypeRef) and v.cls.name.startswith("exc.") and self.hier.is_sub(v.cls_name, nm):
+                    return True  # an exception in flight handed to __exit__ / bound by `except ... as`
                 if isinstance(v, Obj) and isinstance(v.cls, ClassRef) and nm in v.cls.base_names():
                     return True
         return False
